@@ -294,3 +294,51 @@ def c_profile_rows(ctx, it, cfg):
         ctx.prove('row%d-starts-at-the-left-value-of-%s' % (i, e), eq(x.get(i, 0), ends[e][0]))
         ctx.prove('row%d-ends-at-the-right-value-of-%s' % (i, e), eq(x.get(i, N - 1), ends[e][1]), inst=[N - 1])
     ctx.prove('canary/rows-swapped', eq(x.get(0, 0), ends[cfg['els'][1]][0]), expect='refuted')
+
+
+@REG.contract('PrecipitateModel.getDt/smallest-of-the-five-limits', ['kawin.precipitation.KWNEuler:PrecipitateModel.getDt'], configs=[dict(name='P=2', P=2)])
+def c_getdt_model(ctx, it, cfg):
+    """the proposed step is the smallest of the five per-phase limits (each proved independent of the phase order above) and the remaining time, or -- when
+    none of them binds -- the previous step grown by the configured factor; every limit is computed from the CURRENT step's data of ALL phases"""
+    from .kwn import mk_kwn
+    P = cfg['P']
+    m, pd, n = mk_kwn(ctx, it, P, 1)
+    calls = {}
+
+    class Cons(object):
+        dtScale = real(ctx, 'dtScale', lambda v: v > 0)
+
+        def _rec(self, name, args):
+            calls[name] = args
+            return real(ctx, 'dt_' + name, lambda v: v > 0)
+
+        def computeDTfromPSD(self, *a): return self._rec('psd', a)
+        def computeDTfromNucleationRate(self, *a): return self._rec('nuc', a)
+        def computeDTfromTemperature(self, *a): return self._rec('temp', a)
+        def computeDTfromRcrit(self, *a): return self._rec('rcrit', a)
+        def computeDTfromVolume(self, *a): return self._rec('vol', a)
+    cons = Cons()
+    m.fields['constraints'] = cons
+    m.fields['finalTime'] = tf = real(ctx, 'finalTime')
+    tn = pd.fields['time'].get(n)
+    ctx.assume(tf > tn)
+    m.fields['growth'] = [object() for _ in range(P)]
+    dXdt = object()
+    dt = m.getDt(dXdt)
+    lims = [real(ctx, 'dt_' + k) for k in ('psd', 'nuc', 'temp', 'rcrit', 'vol')]
+    dtMax = tf - tn
+    dtPrev = ite(eq(n, 0), Fraction(1, 100), tn - pd.fields['time'].get(n - 1))
+    smallest = dtMax
+    for l in lims:
+        smallest = vmin(smallest, l)
+    ctx.prove('all-five-limits-asked', sorted(calls) == ['nuc', 'psd', 'rcrit', 'temp', 'vol'])
+    ctx.prove('step-is-the-smallest-limit-or-the-grown-previous-step', eq(dt, ite(eq(smallest, dtMax), (1 + cons.dtScale) * dtPrev, smallest)))
+    for k in sorted(calls):
+        ctx.prove('limit-%s-computed-at-the-current-step' % k, eq(calls[k][0], n))
+        ctx.prove('limit-%s-given-the-remaining-time' % k, eq(calls[k][-1], dtMax))
+    ctx.prove('limits-see-the-recorded-histories', calls['nuc'][1] is pd.fields['nucRate'] and calls['temp'][1] is pd.fields['temperature'] and calls['psd'][1] is pd.fields['temperature']
+              and calls['rcrit'][1] is pd.fields['Rcrit'] and calls['rcrit'][2] is pd.fields['drivingForce'] and calls['vol'][1] is pd.fields['nucRate'] and calls['vol'][2] is pd.fields['Rnuc'])
+    ctx.prove('limits-see-every-phase', calls['psd'][2] is m.fields['PBM'] and calls['psd'][3] is m.fields['growth'] and calls['vol'][3] is m.fields['PBM'] and len(calls['vol'][6]) == P and len(calls['vol'][7]) == P
+              and all(calls['vol'][6][p] is m.fields['precipitateParameters'][p].volume.Vm for p in range(P)))
+    ctx.prove('remaining-time-and-previous-step-handed-over', and_(eq(calls['nuc'][3], dtPrev), eq(calls['temp'][2], dtPrev), eq(calls['rcrit'][4], dtPrev)))
+    ctx.prove('canary/always-the-grown-previous-step', eq(dt, (1 + cons.dtScale) * dtPrev), expect='refuted')
